@@ -18,6 +18,10 @@ from .. import catalogue as cat
 from ..topo import REF, KIND_OF_CLASS, Topo
 
 ID = 'C14'
+# sub-checks added after the seeded-change waves (DESIGN.md sections 5 and 6)
+EXTENSIONS = [
+    'far-translated variant; refined-stretched variant (nearest centroids do not contain the point); Fortran / transposed / strided point arrays; dyadic facet weights',
+]
 LEVEL = 'exploration'
 TECHNIQUE = "small-scope exhaustive enumeration (mesh states x designated points x query shapes x catalogue x all unit vectors) with exact containment oracle"
 LEVEL_TEXT = ("For every first-order seed with convex cells (plus renumbered, mirrored, anisotropically scaled, uniformly and "
